@@ -181,6 +181,8 @@ class GlobalContext:
             if path.endswith("/__init__"):
                 path = os.path.dirname(path)
             ctx_name = self.name
+            if not self.rel_import_path.endswith("/__init__") and ctx_name.count(".") > path.count("/"):
+                ctx_name = ctx_name[0 : ctx_name.rfind(".")]
             for _ in range(import_level - 1):
                 path = os.path.dirname(path)
                 idx = ctx_name.rfind(".")
